@@ -123,6 +123,34 @@ impl Pair {
     }
 }
 
+
+/// A HelloVerifyRequest datagram. rustrtc's server never sends one (its client handles one): built with the real encoders.
+pub fn hvr_datagram(tpl: &str) -> Option<Vec<u8>> {
+    if tpl != "dg.hvr" {
+        return None;
+    }
+    // rustrtc's server never sends a HelloVerifyRequest (its client handles one): built with the real encoders
+    use bytes::BytesMut;
+    use rustrtc::transports::dtls::handshake::{HandshakeMessage, HandshakeType, HelloVerifyRequest};
+    use rustrtc::transports::dtls::record::{ContentType, DtlsRecord, ProtocolVersion};
+    let mut body = BytesMut::new();
+    HelloVerifyRequest { version: ProtocolVersion::DTLS_1_2, cookie: vec![0xC0; 20] }.encode(&mut body);
+    let mut hs = BytesMut::new();
+    HandshakeMessage {
+        msg_type: HandshakeType::HelloVerifyRequest,
+        total_length: body.len() as u32,
+        message_seq: 0,
+        fragment_offset: 0,
+        fragment_length: body.len() as u32,
+        body: body.freeze(),
+    }
+    .encode(&mut hs);
+    let mut rec = BytesMut::new();
+    DtlsRecord { content_type: ContentType::Handshake, version: ProtocolVersion::DTLS_1_2, epoch: 0, sequence_number: 0, payload: hs.freeze() }
+        .encode(&mut rec);
+    Some(rec.to_vec())
+}
+
 /// Template name of a DTLS datagram (one record per datagram on UDP).
 pub fn classify(d: &[u8]) -> &'static str {
     if d.len() < 14 || d[0] != 22 || d[3] != 0 || d[4] != 0 {
@@ -141,6 +169,10 @@ pub fn classify(d: &[u8]) -> &'static str {
 }
 
 /// Every datagram type of a complete genuine handshake, captured once per process.
+pub async fn reference_datagrams() -> Result<HashMap<&'static str, Vec<u8>>, String> {
+    reference().await
+}
+
 async fn reference() -> Result<HashMap<&'static str, Vec<u8>>, String> {
     static R: OnceLock<Mutex<Option<HashMap<&'static str, Vec<u8>>>>> = OnceLock::new();
     let cell = R.get_or_init(|| Mutex::new(None));
@@ -276,27 +308,8 @@ impl Ep {
             }
             return self.reference.get("dg.cert").and_then(|d| split_handshake(d)).map(|(_, f2)| f2);
         }
-        if tpl == "dg.hvr" {
-            // rustrtc's server never sends a HelloVerifyRequest (its client handles one): built with the real encoders
-            use bytes::BytesMut;
-            use rustrtc::transports::dtls::handshake::{HandshakeMessage, HandshakeType, HelloVerifyRequest};
-            use rustrtc::transports::dtls::record::{ContentType, DtlsRecord, ProtocolVersion};
-            let mut body = BytesMut::new();
-            HelloVerifyRequest { version: ProtocolVersion::DTLS_1_2, cookie: vec![0xC0; 20] }.encode(&mut body);
-            let mut hs = BytesMut::new();
-            HandshakeMessage {
-                msg_type: HandshakeType::HelloVerifyRequest,
-                total_length: body.len() as u32,
-                message_seq: 0,
-                fragment_offset: 0,
-                fragment_length: body.len() as u32,
-                body: body.freeze(),
-            }
-            .encode(&mut hs);
-            let mut rec = BytesMut::new();
-            DtlsRecord { content_type: ContentType::Handshake, version: ProtocolVersion::DTLS_1_2, epoch: 0, sequence_number: 0, payload: hs.freeze() }
-                .encode(&mut rec);
-            return Some(rec.to_vec());
+        if let Some(d) = hvr_datagram(tpl) {
+            return Some(d);
         }
         self.reference.get(tpl).cloned()
     }
